@@ -12,9 +12,13 @@ import time
 
 VERIF = os.path.dirname(os.path.dirname(os.path.abspath(__file__)))
 SPEC = os.path.join(VERIF, "spec")
-EVID = os.path.join(VERIF, "evidence")
-SCRATCH = os.path.join(VERIF, "build", "scratch")
-REPLAY = os.path.join(VERIF, "build", "replay")
+# CIDER_VERIF_OUT redirects everything a run writes (evidence, replay files, scratch) -- used by
+# tools/run_mutants.py to run the checks against patched scratch worktrees (CIDER_REPO) without
+# touching /repo or the evidence of the real tree
+OUT = os.environ.get("CIDER_VERIF_OUT", VERIF)
+EVID = os.path.join(OUT, "evidence")
+SCRATCH = os.path.join(OUT, "build", "scratch")
+REPLAY = os.path.join(OUT, "build", "replay")
 REPO = os.environ.get("CIDER_REPO", "/repo")
 PY = "/venv/bin/python"
 
